@@ -32,6 +32,40 @@ def url_string_of(I, v):
     return r
 
 
+def _url_fields(I, p):
+    p = I.ctx.force(p)
+    if p is None:
+        raise GoPanic('nil-deref', I.ctx.cur_pos)
+    v = I.ctx.load(p)
+    names = [f['n'] for f in I.prog.fields('net/url.URL')]
+    return {n: (I.ctx.force(x) if not isinstance(x, Lazy) else x) for n, x in zip(names, v)}
+
+
+@stub('(*net/url.URL).IsAbs')
+def url_is_abs(I, args, ins):
+    d = _url_fields(I, args[0])
+    return I.eq(d['Scheme'], '') is False if isinstance(d['Scheme'], str) else b_not(I.eq(d['Scheme'], ''))
+
+
+@stub('(*net/url.URL).RequestURI')
+def url_request_uri(I, args, ins):
+    """encoded path?query (or opaque?query), "/" for an empty path - exact on concrete fields."""
+    d = _url_fields(I, args[0])
+    conc = all(isinstance(d.get(k), str) for k in ('Opaque', 'Path', 'RawPath', 'RawQuery', 'Scheme')) and isinstance(d.get('ForceQuery'), bool)
+    if conc and d['RawPath'] == '' and all(ch.isalnum() or ch in "/-._~!$&'()*+,;=:@" for ch in d['Path']):
+        r = d['Opaque']
+        if r == '':
+            r = d['Path'] or '/'
+        elif r.startswith('//'):
+            r = d['Scheme'] + ':' + r
+        if d['ForceQuery'] or d['RawQuery'] != '':
+            r += '?' + d['RawQuery']
+        return r
+    parts = [zstr(d[k]) for k in ('Opaque', 'Path', 'RawPath', 'RawQuery') if isinstance(d.get(k), str) or (is_sym(d.get(k)) and z3.is_string(d.get(k)))]
+    f = z3.Function('url.RequestURI', *([z3.StringSort()] * len(parts) + [z3.StringSort()]))
+    return f(*parts)
+
+
 @stub('(*net/url.URL).String')
 def url_string(I, args, ins):
     p = I.ctx.force(args[0])
